@@ -133,6 +133,10 @@ def run(ctx):
         ctx.check(bad is None, "R15.2", uid, "future resolved only after stop() and a done() test",
                   msg=f"WaitUntilDecoratorManager.{meth}: {bad}", key=f"{meth} resolves after stop", node=f3, rel="decorator.py")
 
+    # ---------------------------------------------------------------- qualifying evaluations (shared with @state_trigger)
+    from .c05 import step_grid
+    step_grid(ctx, program, "R15.4")
+
     # ---------------------------------------------------------------- result literals
     ctx.rule("R15.3", "the 'timeout' and 'none' results exist on the paths the statement names", floor=4)
     def literals(f):
